@@ -11,6 +11,9 @@
                                  (C05 ∘ C17 ∘ C02 ∘ C06 ∘ C01 ∘ C03); `device_describes_*`: the
                                  same with the simulated device as the answering machine (∘ C14)
     fanout_pipeline              stream_pipeline → subscriber queues (∘ C08)
+    §5                           the theorems of §1–3 are the `Serial.codec` instances of theorems that
+                                 hold for EVERY lawful frame codec (stated in Props/C20.lean, proved in
+                                 Lemmas/Generic.lean): derived here from the generic ones
 
   Hypotheses are exactly those of the component theorems:
     * C05's ranges on channel numbers / counts / divider values (`ClientReq.Valid`);
@@ -23,8 +26,10 @@
       only channels the client knows).
 -/
 import NxsModel.Lemmas.Compose
+import NxsModel.Lemmas.Generic
 namespace Nxs.E2E
 open Nxs Nxs.Spec Nxs.Spec.StreamWire Nxs.Stream Nxs.Gen.Ids Nxs.Compose
+open Nxs.Pad (ClientReq)
 
 /-! ## 1. every client request fires exactly the matching device callback -/
 
@@ -223,7 +228,8 @@ theorem number_spec (k j : Nat) (ss : List Sample) :
     A queue subscribed to channel `c` (existing, enabled at that moment) right after any history
     `pre` receives exactly the positions of the `c`-samples among the samples the device put on the
     wire (`bs.flatten.filter carries`), ascending — each once, in device order, whatever the
-    chunking of the link. -/
+    chunking of the link.  (`hdead`: C08's hypothesis that no undecodable frame has ended the client's
+    stream thread during `pre` — R-C08-2.) -/
 theorem fanout_pipeline (user : List UserType) (L : List Chan) (bs : List (List Sample)) (fs : List Bytes)
     (chunks : List Bytes) (n c : Nat) (pre : List Fanout.Op)
     (hrep : ∀ b ∈ bs, ∀ s ∈ b, Representable user s) (hL : ∀ b ∈ bs, LayoutAgrees L b)
@@ -232,6 +238,7 @@ theorem fanout_pipeline (user : List UserType) (L : List Chan) (bs : List (List 
     (hfs : bs.map (Stream.frameStreamEncode user) = fs.map fun f => .ok (some f))
     (hch : chunks.flatten = fs.flatten)
     (hc : c < n) (hen : (Fanout.run (Fanout.St.init n) pre).enabled.getD c false = true)
+    (hdead : (Fanout.run (Fanout.St.init n) pre).dead = false)
     (hchan : ∀ b ∈ bs, ∀ s ∈ b, s.chan < n) :
     Fanout.received
         (Fanout.run (Fanout.St.init n)
@@ -239,7 +246,55 @@ theorem fanout_pipeline (user : List UserType) (L : List Chan) (bs : List (List 
             frameOps 0 ((Reasm.run Serial.codec chunks).map (Stream.frameStreamDecode L user))))
         (Fanout.run (Fanout.St.init n) pre).nextQ
       = ((number 0 (bs.flatten.filter carries)).filter (·.chan = c)).map (·.val) :=
-  Compose.fanout_pipeline user L bs fs chunks n c pre hrep hL hne hfit hfs hch hc hen hchan
+  Compose.fanout_pipeline user L bs fs chunks n c pre hrep hL hne hfit hfs hch hc hen hdead hchan
+
+/-! ## 5. §1–3 as instances of the codec-generic theorems (C20)
+
+  `Props/C20.lean` proves (i) request → callback, (ii) device answer → client decoder, (iii) stream
+  pipeline for every `LawfulCodec c` over the builders of `Generic.lean`.  At `c = Serial.codec` those
+  builders are the ones used above (`Generic.serial_*`), `frameWith Serial.codec` is `wire`
+  (`Generic.serial_frameWith_eq_wire`), and the statements of §1–3 follow — nothing is proved twice
+  about the framing. -/
+
+/-- §1 from the generic theorem -/
+theorem request_reaches_callback_from_generic (r : ClientReq) (hr : r.Valid) (pad : Nat) :
+    ∃ f, r.build = .ok f ∧ Dispatch.recvHandle (Pad.dataAlign pad f) = .fired r.cb r.payload :=
+  Generic.serial_request_reaches_callback r hr pad
+
+/-- §2 from the generic theorem — and without the 65529-byte hypothesis: that the frames were created
+    (`hfs`) already says the payloads fit -/
+theorem stream_pipeline_from_generic (user : List UserType) (L : List Chan) (bs : List (List Sample))
+    (fs : List Bytes) (chunks : List Bytes)
+    (hrep : ∀ b ∈ bs, ∀ s ∈ b, Representable user s) (hL : ∀ b ∈ bs, LayoutAgrees L b)
+    (hne : ∀ b ∈ bs, ∃ s ∈ b, carries s = true)
+    (hfs : bs.map (Stream.frameStreamEncode user) = fs.map fun f => .ok (some f))
+    (hch : chunks.flatten = fs.flatten) :
+    (Reasm.run Serial.codec chunks).map (Stream.frameStreamDecode L user)
+      = bs.map fun b => .ok (some (0, (b.filter carries).map (decodedForm user))) := by
+  have hfs' : bs.map (Generic.frameStreamEncode Serial.codec user) = fs.map fun f => .ok (some f) := by
+    rw [← hfs]
+    exact List.map_congr_left fun b _ => (Generic.serial_frameStreamEncode user b).symm
+  exact Generic.stream_pipeline Serial.codec_lawful user L bs fs chunks hrep hL hne hfs' hch
+
+/-- §3 (common info) from the generic theorems -/
+theorem description_roundtrip_cmninfo_from_generic (pad chmax flags rxp : Nat) (h1 : chmax ≤ 255)
+    (h2 : flags ≤ 255) (h3 : rxp ≤ 255) :
+    ∃ req ans, Requests.frameCmninfo = .ok req ∧
+      Dispatch.recvHandle (Pad.dataAlign pad req) = .fired 0 [] ∧
+      Info.cmninfoEncode chmax flags rxp = .ok ans ∧
+      ∀ chunks : List Bytes, chunks.flatten = ans →
+        (Reasm.run Serial.codec chunks).map Info.cmninfoDecode = [.ok (some (chmax, flags, rxp))] := by
+  obtain ⟨req, hreq, hdisp⟩ := request_reaches_callback_from_generic .cmninfo trivial pad
+  have hans : Generic.cmninfoEncode Serial.codec chmax flags rxp
+      = .ok (wire 2 [BitVec.ofNat 8 chmax, BitVec.ofNat 8 flags, BitVec.ofNat 8 rxp]) := by
+    unfold Generic.cmninfoEncode
+    rw [Info.cmninfoData_eq chmax flags rxp h1 h2 h3, ok_bind]
+    exact Generic.serial_frameWith_eq_wire 2 _ (by simp) (by omega)
+  refine ⟨req, _, hreq, hdisp, by rw [Generic.serial_cmninfoEncode]; exact hans, fun chunks hch => ?_⟩
+  obtain ⟨fr, hrun, hdec⟩ := Generic.cmninfo_response Serial.codec_lawful chmax flags rxp h1 h2 h3 _ hans [] []
+    (Generic.validFrames_nil _) (Generic.validFrames_nil _) chunks (by simp [Generic.wireOfFrames, hch])
+  rw [hrun]
+  simp [hdec]
 
 /-! ## non-vacuity -/
 
@@ -347,6 +402,7 @@ example : ((number 0 ([exB1, exB2].flatten.filter carries)).filter (·.chan = 0)
   decide +kernel
 
 example : (Fanout.run (Fanout.St.init 3) [.setEnabled [true, true, true], .sub 2]).enabled.getD 0 false = true ∧
+    (Fanout.run (Fanout.St.init 3) [.setEnabled [true, true, true], .sub 2]).dead = false ∧
     ∀ b ∈ [exB1, exB2], ∀ s ∈ b, s.chan < 3 := by decide +kernel
 
 end Nxs.E2E
